@@ -690,3 +690,52 @@ Lemma on_core_desktop_classic_irrelevant : forall cl cl' os os' cd m st c,
 Proof. reflexivity. Qed.
 Lemma core_desktop_ref_eq : forall e c, core_desktop_ref e c = check_on_core_desktop e c.
 Proof. intros e [[|]|]; unfold core_desktop_ref, check_on_core_desktop; destruct (e_core_desktop e); reflexivity. Qed.
+
+(* ------------------------------------------------------------------ id lists are alternations *)
+(* what an entry of a *-snap-id / *-publisher-id list stands for: a $NAME for its value, anything else for itself *)
+Definition resolve (special : bytes -> bytes) (cand : bytes) : bytes :=
+  match cand with 36 :: _ => special cand | _ => cand end.
+
+Lemma check_id_alternation : forall id ids special, check_id id ids special = true <->
+  ids = [] \/ (id <> [] /\ exists cand, In cand ids /\ resolve special cand <> [] /\ id = resolve special cand).
+Proof.
+  intros id ids special. unfold check_id. destruct ids as [|c0 r]; [split; [left; reflexivity | reflexivity]|].
+  rewrite andb_true_iff, negb_true_iff, existsb_exists. split.
+  - intros [Hid (cand & Hin & Hc)]. right. split; [intro E; rewrite E in Hid; discriminate Hid|].
+    cbv zeta in Hc. apply andb_prop in Hc as [Hne Heq]. exists cand. split; [exact Hin|].
+    change (negb (is_nil_b (resolve special cand)) = true) in Hne. change (beq id (resolve special cand) = true) in Heq.
+    split; [intro E; rewrite E in Hne; discriminate Hne | apply beq_eq, Heq].
+  - intros [H|[Hid (cand & Hin & Hne & Heq)]]; [discriminate H|]. split; [destruct id; [contradiction | reflexivity]|].
+    exists cand. split; [exact Hin|]. cbv zeta.
+    change (negb (is_nil_b (resolve special cand)) && beq id (resolve special cand) = true). rewrite <- Heq.
+    rewrite beq_refl. destruct id; [contradiction | reflexivity].
+Qed.
+
+(* consequently the order of the entries, and unresolvable entries anywhere in the list, do not matter *)
+Lemma check_id_order_irrelevant : forall id ids ids' special,
+  ids <> [] -> ids' <> [] -> (forall c, In c ids <-> In c ids') -> check_id id ids special = check_id id ids' special.
+Proof.
+  intros id ids ids' special H1 H2 Hp.
+  destruct (check_id id ids special) eqn:E1, (check_id id ids' special) eqn:E2; try reflexivity.
+  - apply check_id_alternation in E1 as [->|[Hid (c & Hin & Hne & Heq)]]; [contradiction|].
+    assert (check_id id ids' special = true) as X; [|congruence].
+    apply check_id_alternation. right. split; [exact Hid|]. exists c. split; [apply Hp, Hin | tauto].
+  - apply check_id_alternation in E2 as [->|[Hid (c & Hin & Hne & Heq)]]; [contradiction|].
+    assert (check_id id ids special = true) as X; [|congruence].
+    apply check_id_alternation. right. split; [exact Hid|]. exists c. split; [apply Hp, Hin | tauto].
+Qed.
+
+Lemma check_id_unresolvable_skipped : forall id l1 c l2 special, resolve special c = [] -> l1 ++ l2 <> [] ->
+  check_id id (l1 ++ c :: l2) special = check_id id (l1 ++ l2) special.
+Proof.
+  intros id l1 c l2 special Hc Hne. unfold check_id.
+  destruct (l1 ++ c :: l2) eqn:E; [destruct l1; discriminate|]. rewrite <- E. clear E.
+  destruct (l1 ++ l2) eqn:E'; [contradiction|]. rewrite <- E'. clear E'.
+  f_equal.
+  match goal with |- existsb ?f _ = _ =>
+    assert (Hf : f c = false) by (change (negb (is_nil_b (resolve special c)) && beq id (resolve special c) = false);
+                                  rewrite Hc; reflexivity);
+    rewrite !existsb_app; cbn [existsb]; rewrite Hf; reflexivity
+  end.
+Qed.
+
